@@ -13,7 +13,7 @@
    or above TriggerLevel or an explicit Trigger; then release the held lines in
    order with their levels, followed by that line; from then on pass through;
    Close discards what is held and leaves the latch as it is). *)
-From Verif Require Import Base.Prelude Misc.Level Lts.Trigger Proofs.TriggerP.
+From Verif Require Import Base.Prelude Misc.Level Lts.Trigger Proofs.TriggerP Misc.LockTypes Gen.LockShapes Proofs.GenLockP.
 From Coq Require Import Permutation.
 Open Scope Z_scope.
 
@@ -103,7 +103,9 @@ Proof. exact no_loss_no_dup. Qed.
    history in lock-acquisition order, the log is in that order, and that
    history is an interleaving of the programs.  Assumes what the LTS says:
    sync.Mutex is a mutex with happens-before between Unlock and the next Lock,
-   and each exported method is Lock; body; deferred Unlock (writer.go). *)
+   and each exported method is Lock; body; deferred Unlock (writer.go) - the
+   latter is no longer an assumption: C15_lock_bracket_in_source below is an
+   obligation over the table lockgen re-reads from writer.go on every run. *)
 Theorem C15_concurrent : forall c sc progs sched,
   let st := crun c sc progs sched in
   cs_lock st = None ->
@@ -115,6 +117,26 @@ Proof. exact concurrent_sequential. Qed.
 Theorem C15_blocked_thread_changes_nothing : forall c st t t' b,
   cs_lock st = Some (t', b) -> t' <> t -> cstep c st t = st.
 Proof. exact blocked_is_noop. Qed.
+
+Module LockBracket.
+Import Coq.Strings.String.
+(* the lock bracket of the CURRENT source (Gen/LockShapes.v, regenerated by
+   harness/cmd/lockgen): WriteLevel, Trigger and Close of TriggerLevelWriter begin
+   with w.mu.Lock(); defer w.mu.Unlock(), contain no other operation on the mutex
+   and start no goroutine; every method of the type that uses its state is either
+   such a method or the unexported trigger(), which is called only from them *)
+Theorem C15_lock_bracket_in_source :
+  has_bracketed lock_methods "TriggerLevelWriter"%string "WriteLevel"%string = true /\
+  has_bracketed lock_methods "TriggerLevelWriter"%string "Trigger"%string = true /\
+  has_bracketed lock_methods "TriggerLevelWriter"%string "Close"%string = true.
+Proof. exact trigger_writer_ops_bracketed. Qed.
+
+Theorem C15_state_only_under_lock : forall m, In m lock_methods -> lm_touches m = true ->
+  bracketed m = true \/
+  (lm_exported m = false /\ lm_go m = false /\ lm_extra_ops m = 0%nat /\ lm_callers m <> [] /\
+   forall c, In c (lm_callers m) -> exists m', In m' lock_methods /\ full_name m' = c /\ bracketed m' = true).
+Proof. exact guarded_state_under_lock. Qed.
+End LockBracket.
 
 (* non-vacuity *)
 Definition ex_h : list op :=
@@ -163,4 +185,6 @@ Print Assumptions C15_never_triggered_never_written.
 Print Assumptions C15_after_trigger_passthrough.
 Print Assumptions C15_no_loss_no_dup.
 Print Assumptions C15_concurrent.
+Print Assumptions LockBracket.C15_lock_bracket_in_source.
+Print Assumptions LockBracket.C15_state_only_under_lock.
 Print Assumptions C15_blocked_thread_changes_nothing.
